@@ -62,6 +62,9 @@ EXPRS = [
     ('+p:^(packages,classes)*', None, ['Method'], [1, 2]),
     ('^packages*.(classes,packages)', None, ['Class'], [1, 2]),
     ('..~extends.methods,..methods', 'Method', ['Method'], [1]),
+    # several alternatives that start with '^', names only a later one resolves
+    ('^packages.classes,^classes', 'Class', ['Method', 'Class'], [1, 2]),
+    ('^classes.methods,^methods,^packages.classes.methods', 'Method', ['Method'], [1, 2, 3]),
     # dots steps that need more ancestors than some start objects have
     ('....packages', 'Package', ['Class', 'Method'], [1]),
     ('.....packages.classes,..classes', 'Class', ['Class', 'Method'], [1, 2]),
